@@ -12,7 +12,11 @@ HARNESSES = [
 ]
 ENCODED = ["<Death as PartialOrd>::le/lt (derived)", "Machine::find_living_dynamic_else (4 arms)",
            "Machine::find_living_dynamic", "execute_switch_on_term::"
-           "dynamic_external_of_clause_is_valid"]
+           "dynamic_external_of_clause_is_valid",
+           "dispatch_loop DynamicElse / DynamicInternalElse / DynamicIndexedChoice arms (generation restored "
+           "before the first stamp read; the generation saved for the retry is cc)",
+           "indexing.rs append/prepend decisions (asserta puts the clause first, assertz last, in every "
+           "index bucket) - shared with C06"]
 ASSUME = ["one step of each chain walk (the walk is induction on the chain)",
           "where cc comes from (captured at First, restored from the or-frame at Next), stamping "
           "at assert/retract and index maintenance are outside"]
@@ -22,8 +26,20 @@ OUTSIDE = ("the histories quantifier (interleavings of updates with live choice 
 
 
 def mpost(results):
-    from vlib.mirsmt import c09
-    return c09.run()
+    from vlib.mirsmt import c09, idxorder
+    from vlib.common import EXIT_VIOLATION, EXIT_INCONCLUSIVE
+    r1 = c09.run()
+    r2 = idxorder.run(prop="C09")
+    out = dict(r1)
+    out["evaluations"] = r1.get("evaluations", 0) + r2.get("evaluations", 0)
+    out["distinct_nontrivial"] = r1.get("distinct_nontrivial", 0) + r2.get("distinct_nontrivial", 0)
+    out["samples"] = r1.get("samples", []) + r2.get("samples", [])
+    out["mirsmt_regions"] = r1.get("mirsmt_regions", []) + r2.get("mirsmt_regions", [])
+    if "mirsmt_violations" in r2:
+        out.setdefault("mirsmt_violations", []).extend(r2["mirsmt_violations"])
+    ex = [r.get("exit", 0) for r in (r1, r2)]
+    out["exit"] = EXIT_VIOLATION if EXIT_VIOLATION in ex else (EXIT_INCONCLUSIVE if EXIT_INCONCLUSIVE in ex else 0)
+    return out
 
 
 def run(tier):
